@@ -49,3 +49,73 @@ def recognise(run, v, entry, exc):
 def _site(v, *needles):
     s = " ".join(v.get("exc_site", []))
     return all(n in s for n in needles)
+
+
+def _parents_identity(entry):
+    return any(p.rel.is_join_identity for p in entry.parents)
+
+
+@recogniser("F21")
+def f21(run, v, entry, exc):
+    """join with a non-trivial predicate to a join-identity operand: operand elided, predicate dropped."""
+    if v["kind"] not in ("rows_mismatch",) or entry is None:
+        return False
+    op = entry.op
+    return op.get("k") == "join" and op.get("p") is not None and _parents_identity(entry)
+
+
+def _walk(rel):
+    from .world import walk
+
+    return walk(rel)
+
+
+def _hidden_join_collision(rel):
+    from lsst.daf.relation import BinaryOperationRelation, Join
+
+    for n in _walk(rel):
+        if isinstance(n, BinaryOperationRelation) and isinstance(n.operation, Join):
+            shared = set(n.lhs.columns) & set(n.rhs.columns)
+            if not shared <= set(n.operation.common_columns):
+                return True
+    return False
+
+
+@recogniser("F9")
+def f9(run, v, entry, exc):
+    """SQL join whose operand lost a projection to Select.strip(): a projected-away column of one operand
+    shadows (or is confused with) the same-named column of the other."""
+    if v["kind"] not in ("rows_mismatch", "exec_exception") or entry is None:
+        return False
+    return _hidden_join_collision(entry.rel)
+
+
+def _chain_order_mismatch(rel):
+    from lsst.daf.relation import BinaryOperationRelation, Chain
+
+    for n in _walk(rel):
+        if isinstance(n, BinaryOperationRelation) and isinstance(n.operation, Chain):
+            if [t.qualified_name for t in n.lhs.columns] != [t.qualified_name for t in n.rhs.columns]:
+                return True
+    return False
+
+
+@recogniser("F10")
+def f10(run, v, entry, exc):
+    """UNION operands whose (equal) column sets iterate in different orders: SELECT lists are emitted in set
+    iteration order, so values land in the wrong columns."""
+    if v["kind"] not in ("rows_mismatch",) or entry is None:
+        return False
+    return _chain_order_mismatch(entry.rel)
+
+
+@recogniser("F4")
+def f4(run, v, entry, exc):
+    """Projection.commute moves a projection upstream of a Deduplication (pinned by
+    tests/test_projection.py::test_backtracking_apply)."""
+    if v["kind"] == "commute_unsound":
+        d = v["detail"]
+        return d.get("existing") == "deduplicate" and str(d.get("new", "")).startswith("Π[") and d.get("why") == "rows differ"
+    if v["kind"] in ("rows_mismatch", "tree_semantics", "bad_payload") and entry is not None:
+        return "commute:Projection>Deduplication:full" in entry.events
+    return False
